@@ -74,7 +74,7 @@ func (g *ProgGen) dqBody() string {
 		case 1:
 			sb.WriteString(g.paramExp())
 		case 2:
-			sb.WriteString(r.Pick([]string{"a b", " ", "x'y", "\\\"", "\\$", "\\\\", "#"}))
+			sb.WriteString(r.Pick([]string{"a b", " ", "x'y", "\\\"", "\\$", "\\\\", "#", "${a}bin", "${a}\\\nbin", "${a}_x", "${a}\\\n_", "$a\\\nb"}))
 		case 3:
 			if g.Depth > 0 {
 				g.Depth--
